@@ -11,8 +11,11 @@ Every validator of the committee `cfg.c` is an index `i : Fin cfg.c.n`. The Byza
 any time — lost, duplicated, reordered, replayed, invented by the adversary — as long as the message is `Authentic`
 w.r.t. the current global state. `Authentic` is the symbolic (Dolev–Yao) reading of "signatures cannot be forged":
 
-* if the outer signature verifies (`sigOk = true`) and the key belongs to a correct validator, that validator has
-  sent exactly this message;
+* if the outer signature of a vote or new-view message verifies (`sigOk = true`) and the key belongs to a correct
+  validator, that validator has sent exactly this message. (Proposals are exempt: they are made by the proposer
+  task, which is not part of `Sys` — a replica never sends one, `C05.no_proposal_sent` — and the leader's signature
+  on a proposal plays no role for safety. Any proposal may be delivered, also one the correct leader never made;
+  this only strengthens the theorems);
 * every commit certificate occurring anywhere in the message (the justification of a proposal / new-view, the
   `high_qc` of a timeout vote, the `high_qc` of every group of a timeout certificate) carries, for every correct
   signer `i` in its aggregate signature `(i, v) ∈ sig`, a vote `v` that `i` has sent; likewise every timeout
@@ -140,7 +143,8 @@ def AuthenticQC {cfg : RCfg} (byz : Fin cfg.c.n → Prop) (g : Global cfg) (q : 
 
 /-- **Unforgeability.** The message `s` can exist in global state `g`. -/
 def Authentic {cfg : RCfg} (byz : Fin cfg.c.n → Prop) (g : Global cfg) (s : Signed) : Prop :=
-  (s.sigOk = true → ∀ h : s.key < cfg.c.n, ¬ byz ⟨s.key, h⟩ → s.msg ∈ (g.sys ⟨s.key, h⟩).sent) ∧
+  (s.sigOk = true → (∀ p j, s.msg ≠ .proposal p j) →
+    ∀ h : s.key < cfg.c.n, ¬ byz ⟨s.key, h⟩ → s.msg ∈ (g.sys ⟨s.key, h⟩).sent) ∧
   AuthMsg (sigsOf byz g) s.msg
 
 /-- one step of the global system: a correct validator takes one step of its crash system (handler run to
@@ -167,5 +171,76 @@ theorem GStep.sysStep {cfg : RCfg} {byz : Fin cfg.c.n → Prop} {g g' : Global c
 /-- an authentic message stays authentic when the validators send more -/
 theorem Sigs.mono_c {sg sg' : Sigs} (h : ∀ i v, sg.c i v → sg'.c i v) {q : CommitQC} (hq : AuthCQC sg q) :
     AuthCQC sg' q := fun p hp => h _ _ (hq p hp)
+
+/-! ## The history is a ghost -/
+
+/-- whether and how a validator can step does not depend on the history -/
+theorem HStep.hist_irrelevant {cfg : RCfg} {ok : Signed → Prop} {s s' : Sys} {h0 h0' : List Durable}
+    (hs : HStep cfg ok (s, h0) (s', h0')) (h : List Durable) : ∃ h', HStep cfg ok (s, h) (s', h') := by
+  generalize ha : (s, h0) = a at hs
+  generalize hb : (s', h0') = b at hs
+  cases hs with
+  | run s1 h1 e inp hin hok hok2 hauth hout =>
+    cases ha
+    simp only [Prod.mk.injEq] at hb
+    rw [hb.1]
+    exact ⟨_, HStep.run s h e inp hin hok hok2 hauth hout⟩
+  | crash s1 h1 e inp hin hok hok2 hauth k =>
+    cases ha
+    simp only [Prod.mk.injEq] at hb
+    rw [hb.1]
+    exact ⟨_, HStep.crash s h e inp hin hok hok2 hauth k⟩
+  | restart s1 h1 =>
+    cases ha
+    simp only [Prod.mk.injEq] at hb
+    rw [hb.1]
+    exact ⟨_, HStep.restart s h⟩
+
+/-- `Authentic` does not read the history -/
+theorem authentic_hist {cfg : RCfg} (byz : Fin cfg.c.n → Prop) (g : Global cfg) (hist : Fin cfg.c.n → List Durable)
+    (m : Signed) : Authentic byz ({ g with hist := hist } : Global cfg) m ↔ Authentic byz g m := Iff.rfl
+
+/-- a global step is possible whatever the histories are: the transition relation on `sys` alone is that of the
+plain (undecorated) system -/
+theorem GStep.hist_irrelevant {cfg : RCfg} {byz : Fin cfg.c.n → Prop} {g g' : Global cfg} (h : GStep cfg byz g g')
+    (hist : Fin cfg.c.n → List Durable) :
+    ∃ hist', GStep cfg byz { g with hist := hist } { sys := g'.sys, hist := hist' } := by
+  cases h with
+  | step i hi s' h' hs =>
+    obtain ⟨h'', hs'⟩ := hs.hist_irrelevant (hist i)
+    exact ⟨_, GStep.step ({ g with hist := hist } : Global cfg) i hi s' h'' hs'⟩
+
+/-! ## Whatever was sent stays sent -/
+
+theorem applyEffs_sent_mono (s : Sys) (es : List Effect) : ∀ m ∈ s.sent, m ∈ (applyEffs s es).sent := by
+  induction es generalizing s with
+  | nil => exact fun m hm => hm
+  | cons x es ih =>
+    cases x with
+    | persist d => exact fun m hm => ih { s with d := some d } m hm
+    | send m' => exact fun m hm => ih { s with sent := s.sent ++ [m'] } m (List.mem_append_left _ hm)
+    | notify j => exact fun m hm => ih s m hm
+    | queueBlock a b c => exact fun m hm => ih s m hm
+
+theorem HStep.sent_mono {cfg : RCfg} {ok : Signed → Prop} {s s' : Sys} {h h' : List Durable}
+    (hs : HStep cfg ok (s, h) (s', h')) : ∀ m ∈ s.sent, m ∈ s'.sent := by
+  generalize ha : (s, h) = a at hs
+  generalize hb : (s', h') = b at hs
+  cases hs with
+  | run s1 h1 e inp hin hok hok2 hauth hout =>
+    cases ha
+    simp only [Prod.mk.injEq] at hb
+    rw [hb.1]
+    exact applyEffs_sent_mono { s with r := (step cfg s.r e inp).r } _
+  | crash s1 h1 e inp hin hok hok2 hauth k =>
+    cases ha
+    simp only [Prod.mk.injEq] at hb
+    rw [hb.1]
+    exact applyEffs_sent_mono s _
+  | restart s1 h1 =>
+    cases ha
+    simp only [Prod.mk.injEq] at hb
+    rw [hb.1]
+    exact fun m hm => hm
 
 end EraVerif.Model
